@@ -358,7 +358,7 @@ func (w *World) Header(l string) tmconsensus.Header {
 		PubKeyHash: w.PKH(d.PcpPkh),
 		Proofs:     map[string][]gcrypto.SparseSignature{},
 	}
-	if d.H > 1 {
+	if d.H > 1 || (d.H == 1 && len(d.Pcp) > 0) {
 		sigVS := d.PcpPkh
 		if _, ok := w.Def.Valsets[sigVS]; !ok {
 			sigVS = w.Def.Genesis
